@@ -29,7 +29,7 @@ from ..selftest import Variant
 
 LEVEL = "other"
 META = {
-    "technique": "static analysis: repository-specific lints over the classifier's syntax tree - neighbour-index enumeration against a triaged table, evaluation of the skip predicates to class sets and sibling comparison, scan-loop predicate check, case-sensitivity comparison lint",
+    "technique": "static analysis: repository-specific lints over the classifier's syntax tree - neighbour-index enumeration against a triaged table, evaluation of the skip predicates to class sets and sibling comparison, scan-loop predicate check, case-sensitivity comparison lint, single-step skip lint",
     "level_text": "Lint-level necessary conditions, for all inputs: the classifier never looks at a fixed-offset neighbour (except triaged lexically-adjacent cases), all "
     "look-around goes through predicates that skip whitespace, line breaks and comments alike, and text comparisons are case-insensitive. These are the "
     "ways a hand-written classifier becomes layout-dependent; role equality itself is not decided.",
